@@ -22,9 +22,15 @@ FilterVariants == {<<{}, {}>>} \cup {<<{t}, {}>> : t \in Tags} \cup {<<{}, {t}>>
                   \cup {<<Tags, {}>>}
 XPeriods == {<<a, b>> \in (0..T-1) \X (0..T-1) : a <= b}
 
+\* two exclusion periods that overlap or abut, staggered (the one that starts earlier also ends earlier): they share nodes of
+\* the interval tree behind exclude_times, and a file may be covered by the later one only
+XPairs == {{<<a, b>>, <<c, T - 1>>} : a \in 0..T-2, b \in 0..T-2, c \in 1..T-1} 
+XStaggered == {P \in XPairs : \E x \in P, y \in P : x[1] < y[1] /\ x[2] >= x[1] /\ x[2] - x[1] <= 2 /\ y[1] <= x[2] + 1 /\ x[2] < y[2]}
+
 Queries(F) ==
        {[Q0 EXCEPT !.s = p[1], !.e = p[2], !.white = v[1], !.black = v[2]] : p \in Periods, v \in FilterVariants}
   \cup {[Q0 EXCEPT !.xperiods = {x}] : x \in XPeriods}
+  \cup {[Q0 EXCEPT !.xperiods = P] : P \in XStaggered}
   \cup {[Q0 EXCEPT !.xnames = {f.id}] : f \in F}
   \cup {[Q0 EXCEPT !.xnames = {f.id}, !.xperiods = {x}, !.s = 1, !.e = T - 1] : f \in F, x \in {<<0, 0>>, <<T-1, T-1>>}}
 
